@@ -154,12 +154,13 @@ func pdataUses(p *core.Prog, reach map[*ssa.Function]bool) map[string]dmUse {
 type dmSignal struct {
 	prop, name, pdataPkg, root string
 	enc, dec                   string
+	floor                      int
 }
 
 var dmSignals = []dmSignal{
-	{"C01", "traces", "ptrace", "Traces", "BatchArrowRecordsFromTraces", "TracesFrom"},
-	{"C02", "logs", "plog", "Logs", "BatchArrowRecordsFromLogs", "LogsFrom"},
-	{"C03", "metrics", "pmetric", "Metrics", "BatchArrowRecordsFromMetrics", "MetricsFrom"},
+	{"C01", "traces", "ptrace", "Traces", "BatchArrowRecordsFromTraces", "TracesFrom", 35},
+	{"C02", "logs", "plog", "Logs", "BatchArrowRecordsFromLogs", "LogsFrom", 20},
+	{"C03", "metrics", "pmetric", "Metrics", "BatchArrowRecordsFromMetrics", "MetricsFrom", 70},
 }
 
 func rt_1(sig dmSignal) func(c *core.Ctx, p *core.Prog) {
@@ -181,22 +182,12 @@ func rt_1(sig dmSignal) func(c *core.Ctx, p *core.Prog) {
 		ents := dmEntities(rootT)
 		c.Stats["RT.1 entities "+sig.name] = len(ents)
 		nf := 0
+		var outside []string
 		for _, T := range ents {
 			tn := T.Obj().Name()
 			for _, f := range dmFieldsOf(T) {
 				nf++
-				// encode side: the field is read
-				kE := "enc|" + sig.name + "|" + tn + "." + f.name
-				u, ok := enc[tn+"."+f.name]
-				pos, fnName := encRoots[0].Pos(), encRoots[0].String()
-				if ok {
-					pos, fnName = u.pos, u.fn.String()
-				}
-				c.Check(ok, kE, p.Pos(pos), fnName,
-					"the "+sig.name+" encoder reads "+tn+"."+f.name+"() ("+f.kind+")",
-					"no function reachable from Producer."+sig.enc+" reads "+tn+"."+f.name+"(): this "+f.kind+" data-model field is never encoded, so it cannot survive the round trip")
-				// decode side: the field is written
-				kD := "dec|" + sig.name + "|" + tn + "." + f.name
+				u, okE := enc[tn+"."+f.name]
 				var w dmUse
 				okD := false
 				var how string
@@ -211,15 +202,24 @@ func rt_1(sig dmSignal) func(c *core.Ctx, p *core.Prog) {
 					w, okD = dec[tn+"."+f.name]
 					how = f.name + "() (filled in place)"
 				}
-				pos, fnName = decRoots[0].Pos(), decRoots[0].String()
-				if okD {
-					pos, fnName = w.pos, w.fn.String()
+				key := sig.name + "|" + tn + "." + f.name
+				switch {
+				case !okE && !okD:
+					// neither side knows the field: it has no column in the Arrow data model, which the
+					// property's domain excludes ("only fields that exist in the Arrow data model are compared")
+					outside = append(outside, tn+"."+f.name)
+					c.InfoOb(key, p.Pos(encRoots[0].Pos()), encRoots[0].String(), tn+"."+f.name+" is handled by neither the encoder nor the decoder: no column in the Arrow data model (outside the property's domain)")
+				case okE && okD:
+					c.OK(key, p.Pos(u.pos), u.fn.String(), "the "+sig.name+" encoder reads "+tn+"."+f.name+"() and the decoder writes "+tn+"."+how+" ("+f.kind+")")
+				case okE:
+					c.Viol(key, p.Pos(u.pos), u.fn.String(), "the "+sig.name+" encoder reads "+tn+"."+f.name+"() but no function reachable from Consumer."+sig.dec+" calls "+tn+"."+how+": this "+f.kind+" data-model field is never restored by the decoder")
+				default:
+					c.Viol(key, p.Pos(w.pos), w.fn.String(), "the "+sig.name+" decoder writes "+tn+"."+how+" but no function reachable from Producer."+sig.enc+" reads "+tn+"."+f.name+"(): this "+f.kind+" data-model field is never encoded, the decoder restores a default")
 				}
-				c.Check(okD, kD, p.Pos(pos), fnName,
-					"the "+sig.name+" decoder writes "+tn+"."+how,
-					"no function reachable from Consumer."+sig.dec+" calls "+tn+"."+how+": this "+f.kind+" data-model field is never restored by the decoder")
 			}
 		}
+		sort.Strings(outside)
+		c.Note("RT.1 %s: pdata fields with no column on either side (outside the Arrow data model, not compared by the property): %s", sig.name, strings.Join(outside, ", "))
 		c.Stats["RT.1 fields "+sig.name] = nf
 		var names []string
 		for _, T := range ents {
@@ -231,6 +231,6 @@ func rt_1(sig dmSignal) func(c *core.Ctx, p *core.Prog) {
 
 func init() {
 	for _, s := range dmSignals {
-		register(s.prop, &core.Rule{ID: "RT.1", Title: "data-model completeness: every field of every " + s.name + " message type is read by the encoder and written by the decoder", Mod: core.ModRoot, Floor: 40, Run: rt_1(s)})
+		register(s.prop, &core.Rule{ID: "RT.1", Title: "data-model agreement: every field of every " + s.name + " message type that one side handles is handled by the other (read by the encoder, written by the decoder)", Mod: core.ModRoot, Floor: s.floor, Run: rt_1(s)})
 	}
 }
